@@ -161,6 +161,13 @@ fn replay<W: World>(prog: &W::Prog, cfg: &Cfg, hist: &[W::Action], stats: &mut S
 
 /// Explore one program. `ids` = (family index, program index) for the marker.
 pub fn bfs<W: World>(prog: &W::Prog, cfg: &Cfg, opts: &Opts, ids: (u32, u32), marker: &Marker, stats: &mut Stats) {
+    bfs_from::<W>(prog, cfg, opts, ids, None, marker, stats)
+}
+
+/// Like `bfs`, optionally restricted to histories whose first action is the `first`-th enabled
+/// action of the initial state (used to split one big program over several workers; each split
+/// keeps its own visited set).
+pub fn bfs_from<W: World>(prog: &W::Prog, cfg: &Cfg, opts: &Opts, ids: (u32, u32), first: Option<u16>, marker: &Marker, stats: &mut Stats) {
     stats.programs += 1;
     let mut seen: HashMap<(u64, u64), u32> = HashMap::new(); // digest -> index into reps (if congruence checking)
     let mut reps: Vec<Vec<W::Action>> = vec![];
@@ -203,6 +210,13 @@ pub fn bfs<W: World>(prog: &W::Prog, cfg: &Cfg, opts: &Opts, ids: (u32, u32), ma
             let acts = w.as_ref().unwrap().enabled();
             let nacts = acts.len();
             for (i, a) in acts.iter().enumerate() {
+                if depth == 0 {
+                    if let Some(f) = first {
+                        if f as usize != i {
+                            continue;
+                        }
+                    }
+                }
                 let mut w2 = if i + 1 == nacts {
                     w.take().unwrap()
                 } else {
